@@ -841,6 +841,16 @@ func (env *Env) callSpec(e *ECall) (SVal, error) {
 		}
 		a := env.st.Get(x.mvName(mt, ls[0].Path), "(Array Int (Array "+ks+" "+ls[0].Sort+"))")
 		return SVal{Val: Val{L: []string{Select(a, v.L[0])}}, ghostSort: "(Array " + ks + " " + ls[0].Sort + ")"}, nil
+	case "unboxString":
+		v, err := env.evalRV(e.Args[0])
+		if err != nil {
+			return SVal{}, err
+		}
+		if len(v.L) != 2 {
+			return SVal{}, fmt.Errorf("unboxString wants an interface value")
+		}
+		x.declBox()
+		return SVal{Val: Val{Typ: tString, L: []string{"(unboxS " + v.L[1] + ")"}}}, nil
 	case "arrOf":
 		v, err := env.evalRV(e.Args[0])
 		if err != nil {
